@@ -17,6 +17,7 @@ import (
 	"strings"
 	"sync"
 	"sync/atomic"
+	"unicode/utf8"
 
 	cloudstorage "cloud.google.com/go/storage"
 	"github.com/bluele/gcache"
@@ -101,6 +102,11 @@ func (g *GcsEmu) Handler(w http.ResponseWriter, r *http.Request) {
 	}
 	object := p.Object
 	bucket := p.Bucket
+	if !utf8.ValidString(object) || !utf8.ValidString(bucket) {
+		// Names are Unicode strings; anything else cannot be listed (page tokens and JSON carry strings).
+		g.gapiError(w, http.StatusBadRequest, "object and bucket names must be valid UTF-8")
+		return
+	}
 
 	if err := r.ParseForm(); err != nil {
 		g.gapiError(w, http.StatusBadRequest, fmt.Sprintf("failed to parse form: %s", err))
@@ -719,6 +725,9 @@ func (g *GcsEmu) handleGcsNewObjectResume(ctx context.Context, baseUrl HttpBaseU
 
 func (g *GcsEmu) finishUpload(ctx context.Context, baseUrl HttpBaseUrl, obj *storage.Object, contents []byte, bucket string, conds cloudstorage.Conditions) (*storage.Object, error) {
 	filename := obj.Name
+	if !utf8.ValidString(filename) {
+		return nil, fmtErrorfCode(http.StatusBadRequest, "object names must be valid UTF-8")
+	}
 	bHash := md5.Sum(contents)
 	contentHash := bHash[:]
 	md5Hash := base64.StdEncoding.EncodeToString(contentHash)
